@@ -124,7 +124,11 @@ def check(cx):
                     ischan = a
                 if a[1][1].endswith('validate_username'):
                     isnick = a
-    wild = [a for e, r in wreps for a in atoms(e.pc) if a[0] == 'is' and a[1][0] == 'get' and a[1][1] == MASK and a[1][2][0] == 'lit']
+    # "has a wildcard": `mask.contains('*')` / `mask.contains(|c| c == '*' || ..)` / `mask.chars().any(..)` - any test of the mask's
+    # characters in front of the three query forms
+    wild = [a for e, r in wreps for a in atoms(e.pc)
+            if (a[0] == 'is' and a[1][0] == 'get' and a[1][1] == MASK and a[1][2][0] == 'lit')
+            or (a[0] == 'is' and a[1][0] == 'find' and a[1][1] == MASK) or (a[0] == 'any' and a[1] == MASK)]
     if ischan is None or isnick is None or not wild:
         raise AnchorLost('WHO query-form discrimination not found')
     nowild = [(a, False) for a in set(wild)]
@@ -163,7 +167,8 @@ def check(cx):
     compare(r2, 'process_who|nick', 'WHO <nick>', wreps, nick_form + hidden_user(MASK, wreps),
             nick_form + [(('is', ('get', USERS, MASK), 'Some'), False)], fw, 'an invisible user sharing no channel')
     uk = ('elem', ('keys', USERS))
-    per_user = [(e, r) for e, r in wreps if in_loop_over(e, lambda c: c in (USERS, ('hashmap', USERS)))]
+    per_user = [(e, r) for e, r in wreps if in_loop_over(e, lambda c: c in (USERS, ('hashmap', USERS)) or
+                                                       (isinstance(c, tuple) and c[:1] == ('mapped',) and mentions(c[1], USERS)))]
     if not per_user:
         raise AnchorLost('WHO wildcard loop not found')
     none_reachable(r2, 'process_who|wildcard', 'WHO <wildcard mask>', per_user, hidden_user(uk, per_user)[1:], 'an invisible user sharing no channel')
